@@ -93,16 +93,25 @@ def r_C12b(root):
     if len(words) < 50: raise AnalysisError("string_value language: only %d words enumerated" % len(words))
     def visit(w):
         return pyeval.run_block(vis.body, {"node.value": w, "children": []})
+    from sa.rules.c12e import rrel_builder
+    cds_, benv_, _build, _ps = rrel_builder(root)
+    vis_ = pyeval.Inst({".__cls__": "RRELVisitor", ".debug": False})
+    def nav_of(fixed):
+        """the navigation  <literal>~n  as the visitor builds it (constructor interpreted) from the value of the literal"""
+        c_, f_ = pyeval.find_method(cds_, "RRELVisitor", "visit_rrel_navigation")
+        if f_ is None: raise AnalysisError("RRELVisitor.visit_rrel_navigation not found")
+        return pyeval.call_method_of(vis_, c_, f_, [{".kind": "node", ".value": "", ".position": 0}, pyeval.SList([fixed, "n"], results={"string_value": [fixed], "rrel_id": ["n"]})], {}, benv_)
     bad = None; n_ok = 0
     for w in words:
         try:
             v = visit(w)
-            s = pyeval.run_block(rep.body, {"__functions__": fns_rep, "self": {".kind": "nav"}, "self.fixed_name": v, "self.name": "n", "self.consume_name": False, "RRELNavigation": {".kind": "cls"}})
+            nav = nav_of(v)
+            s = pyeval.text_of(nav, benv_)
             if not (isinstance(s, str) and s.endswith("~n")): bad = (w, "printed form %r does not end in the navigation ~n" % (s,)); break
             lit = s[:-2]
-            if not any(_accepts(a, lit) for a in nfas): bad = (w, "the literal %s is read as the name %r and printed as %s, which is not a string literal of the grammar" % (w, v, lit)); break
-            v2 = visit(lit)
-            if v2 != v: bad = (w, "the literal %s is read as the name %r, printed as %s and read back as %r" % (w, v, lit, v2)); break
+            if not any(_accepts(a, lit) for a in nfas): bad = (w, "the literal %s is read as the name %r and printed as %s, which is not a string literal of the grammar" % (w, nav.get(".fixed_name"), lit)); break
+            v2 = visit(lit); nav2 = nav_of(v2)
+            if nav2.get(".fixed_name") != nav.get(".fixed_name"): bad = (w, "the literal %s is read as the name %r, printed as %s and read back as %r" % (w, nav.get(".fixed_name"), lit, nav2.get(".fixed_name"))); break
             n_ok += 1
         except pyeval.Unsupported as e: raise AnalysisError("fixed-name round trip: outside the evaluated subset: %s" % e)
         except pyeval.Raised as e: bad = (w, "printing raises %s" % e.cls); break
